@@ -344,8 +344,12 @@ def _emit_fn(g, source, a, blocks, vacuity):
         sig2 = re.sub(r"\bfn\s+%s\b" % re.escape(fname), "fn reach__" + fname, sigtext, count=1)
         r = Fn()
         r.name = f.name; r.kind = "reach"; r.props = f.props; r.has_requires = True
-        if g.lines and g.lines[f.first - 2].strip().startswith("#[verifier::exec_allows_no_decreases_clause]"):
-            g.lines.append("#[verifier::exec_allows_no_decreases_clause]")
+        k = f.first - 2
+        attrs = []
+        while k >= 0 and g.lines[k].strip().startswith("#[verifier::"):
+            attrs.append(g.lines[k].strip()); k -= 1
+        for at in reversed(attrs):
+            g.lines.append(at)
         r.first = len(g.lines) + 1
         for l in sig2.split("\n"): g.lines.append(l)
         for l in "\n".join(parts).split("\n"): g.lines.append(l)
